@@ -39,6 +39,11 @@ class Group:
             raise ValueError('%s: missing //@APPEND' % path)
         self.target = m.group(1)
         self.package = 'cadence-macros' if self.target.startswith('cadence-macros/') else 'cadence'
+        rel = self.target.split('/src/', 1)[1][:-3]
+        mm = re.search(r'^\s*(?:pub(?:\([a-z]+\))?\s+)?mod\s+(\w+)\s*\{', self.text, re.M)
+        # fully qualified module path of the harnesses (cargo kani --exact needs it: a plain --harness
+        # filter matches substrings, so `c16_x` would also run `c16_x_rev`)
+        self.modpath = '::'.join([x for x in rel.split('/') if x not in ('lib', 'mod')] + ([mm.group(1)] if mm else []))
         self.harnesses = []
         for i, ln in enumerate(self.text.split('\n')):
             m = re.match(r'\s*//@H\s+(.*?)\s+::\s+(.*)$', ln)
@@ -86,7 +91,7 @@ def prepare_ws(groups):
         with open(tgt, 'a') as f:
             f.write('\n// ===== appended by /verif (K1): harness group %s =====\n' % g.name)
             f.write(NONBLOCKING_ASSERT)
-            f.write(re.sub(r'(?<![\w:!])assert!\(', 'vassert!(', g.text))
+            f.write(g.text if os.environ.get('VERIF_NO_K5') else re.sub(r'(?<![\w:!])assert!\(', 'vassert!(', g.text))
         notes.append('K1 append %s -> %s' % (g.name, g.target))
     with open(os.path.join(ws, 'Cargo.toml'), 'a') as f:
         f.write('\n[patch.crates-io]\ncrossbeam-channel = { path = "%s" }\n' % SHIM)
@@ -155,10 +160,12 @@ def short(full):
     return full.split('::')[-1]
 
 
-def run_harnesses(ws, package, names, timeout_s, jobs=JOBS):
+def run_harnesses(ws, package, names, timeout_s, jobs=JOBS, modpath=None):
     cmd = ['cargo', 'kani', '-p', package] + KANI_FLAGS + ['--output-format', 'terse', '--harness-timeout', '%ds' % timeout_s, '-j', str(max(1, min(jobs, len(names))))]
+    if modpath:
+        cmd.append('--exact')
     for n in names:
-        cmd += ['--harness', n]
+        cmd += ['--harness', (modpath[n] + '::' + n) if modpath else n]
     env = env_offline()
     env['RUSTFLAGS'] = '--cfg cadence_verif'
     rc, out, err, wall = run(cmd, cwd=ws, timeout=timeout_s * 3 + 900, env=env)
@@ -206,7 +213,7 @@ def evaluate(group_names, prop, tier, res, timeout_s=None, only_quick=None):
             hs = [h for h in hs if any(h.name == o or (o.endswith('*') and h.name.startswith(o[:-1])) for o in only_quick)]
         if not hs:
             continue
-        results, cerr, wall, cmd = run_harnesses(ws, pkg, [h.name for h in hs], timeout_s)
+        results, cerr, wall, cmd = run_harnesses(ws, pkg, [h.name for h in hs], timeout_s, modpath={h.name: h.group.modpath for h in hs})
         res.checker_cmds.append(re.sub(r'(--harness \S+ ?)+', '--harness <%d harnesses> ' % len(hs), cmd))
         if cerr:
             res.undecide('kani: the harness modules no longer compile against the current tree (%s):\n%s' % (pkg, cerr[:1500]))
